@@ -89,12 +89,25 @@ def perturbations(C, T, rng):
             T["max_consumed_culled_kcals_each_month"] = np.asarray(T["max_consumed_culled_kcals_each_month"], dtype=float) * (1 + f)
             C["meat_summed_consumption"] = C["meat_summed_consumption"] * (1 + f)
         add("meat+%g" % frac, +1, meat, C["ADD_MEAT"])
+
+        # single entries of the meat inputs alone (each is a supply the optimiser reads): the stock, the last running-total entry
+        def meat_total_only(C, T, f=frac):
+            C["meat_summed_consumption"] = C["meat_summed_consumption"] * (1 + f)
+        add("meat-stock-only+%g" % frac, +1, meat_total_only, C["ADD_MEAT"] and C["STORE_FOOD_BETWEEN_YEARS"])
+
+        def meat_cap_last_only(C, T, f=frac):
+            a = np.asarray(T["max_consumed_culled_kcals_each_month"], dtype=float).copy()
+            a[-1] = a[-1] * (1 + f) + 1e-3
+            T["max_consumed_culled_kcals_each_month"] = a
+        add("meat-cap-last-only+%g" % frac, +1, meat_cap_last_only, C["ADD_MEAT"] and C["STORE_FOOD_BETWEEN_YEARS"])
         add("milk+%g" % frac, +1, lambda C, T, f=frac: T.__setitem__("milk_kcals", np.asarray(T["milk_kcals"], dtype=float) * (1 + f) + 1e-3))
         add("fish+%g" % frac, +1, lambda C, T, f=frac: setattr(T["fish"].to_humans, "kcals", np.asarray(T["fish"].to_humans.kcals, dtype=float) * (1 + f) + 1e-3))
         add("greenhouse+%g" % frac, +1, lambda C, T, f=frac: setattr(T["greenhouse_crops"], "kcals", np.asarray(T["greenhouse_crops"].kcals, dtype=float) * (1 + f) + 1e-3))
     for wk, flag in (("STORED_FOOD_WASTE_RETAIL", "ADD_STORED_FOOD"), ("CROP_WASTE_RETAIL", "ADD_OUTDOOR_GROWING"), ("MEAT_WASTE_RETAIL", "ADD_MEAT"),
                      ("SCP_RETAIL_WASTE", "ADD_METHANE_SCP"), ("CELL_SUGAR_RETAIL_WASTE", "ADD_CELLULOSIC_SUGAR"), ("SEAWEED_WASTE_RETAIL", "ADD_SEAWEED")):
         add("waste-1:" + wk, +1, lambda C, T, k=wk: C.__setitem__(k, max(0.0, C[k] - 1.0)), C[flag] and C.get(wk, 0) >= 1.0)
+        # down to a fraction of a percent (several low-income countries have retail waste below 1 %)
+        add("waste->0.5:" + wk, +1, lambda C, T, k=wk: C.__setitem__(k, 0.5), C[flag] and C.get(wk, 0) > 0.5)
     has_charge = float(np.sum(T["feed"].kcals) + np.sum(T["biofuel"].kcals)) > 0
 
     def charge(C, T, f):
@@ -155,8 +168,10 @@ def audit_instance(ctx, run, k, s):
         ctx.violation("scaled-instance-unsolvable", "%s round %d: the instance scaled by %g does not solve" % (run.iso, k + 1, kfac), dict(case0, k=kfac))
     perts = perturbations(C0, T0, ctx.rng)
     if ctx.quick:
+        # ten per instance, least-used kinds first: every kind of perturbation is exercised across the instances of a run
         ctx.rng.shuffle(perts)
-        perts = perts[:7]
+        perts.sort(key=lambda p_: ctx.stats["perturbation:" + p_[0]])
+        perts = perts[:10]
     for name, sign, f in perts:
         C, T = copy.deepcopy(C0), copy.deepcopy(T0)
         f(C, T)
@@ -174,7 +189,7 @@ def audit_instance(ctx, run, k, s):
                           dict(case0, perturbation=name, z=z0, z_perturbed=z1))
         ctx.case((run.iso, sorted(run.opts.items()), k, name), nontrivial=z0 > 0,
                  sample={"country": run.iso, "round": k + 1, "perturbation": name, "z": z0, "z_perturbed": z1})
-        ctx.count("perturbation:" + name.split("+")[0].split(":")[0])
+        ctx.count("perturbation:" + name)
 
 
 def explore(ctx, ps):
